@@ -164,6 +164,8 @@ def parse_workload(ops, rng, n, with_canparse=True):
             if with_canparse:
                 ops.canparse(inp)
         ops.reparse(2)
+        if rng.random() < 0.15:
+            ops.tostring(2)
 
 
 SETTERS = ['href', 'protocol', 'username', 'password', 'host', 'hostname', 'port', 'pathname', 'search', 'hash',
@@ -246,6 +248,8 @@ def history_workload(ops, rng, n, depth=12):
                 ops.set(1, op, v)
             if rng.random() < 0.25:
                 ops.reparse(1)
+            if rng.random() < 0.12:
+                ops.tostring(1)
             if not copied and rng.random() < 0.15:
                 ops.copy(2, 1)
                 copied = True
